@@ -391,6 +391,13 @@ pub fn conv_coord(k: Key, flip: bool, swap: bool) -> Key {
 	}
 	(z, x, y)
 }
+/// the tiles of a source spec at the coordinates at which the (possibly converter-wrapped) leaf serves them
+pub fn served_tiles(s: &SrcSpec) -> BTreeMap<Key, u64> {
+	match conv_flags(&s.kind) {
+		None => s.tiles.clone(),
+		Some((flip, swap)) => s.tiles.iter().map(|(k, v)| (conv_coord(*k, flip, swap), *v)).collect(),
+	}
+}
 pub fn wrap_conv(r: Box<dyn TilesReaderTrait>, kind: &str) -> Result<Box<dyn TilesReaderTrait>> {
 	match conv_flags(kind) {
 		None => Ok(r),
